@@ -560,13 +560,43 @@ def r4(ctx: Ctx, rep: Report):
             ok = True
             why = "tx in [1, %d], +1 per call, %d -> %d at the wrap" % (K - 1, K - 1, c)
     rep.check(ok, "C03.R4", "next-tx", fn.loc(), "_next_tx: %s" % why, bad="_next_tx: %s: the transaction id may become 0, repeat, or overflow two bytes" % why)
-    # request_bytes replaces exactly bytes [0:2]
+    # the id is renewed for every transmission: every _next_tx() call site splices the id over bytes [0:2] of the frame and
+    # lies in a function the TCP _send_request reaches before its transport write (request_bytes of the Modbus/TCP commands)
+    res = ctx.res
     tcp = prog.cls("ModbusTcpProtocolCommand")
-    rb = tcp.methods.get("request_bytes")
-    okr = rb is not None and any(isinstance(n, ast.Assign) and norm(n.targets[0]) == "self.request" and norm(n.value) == "_next_tx() + self.request[2:]" for n in ast.walk(rb.node)) \
-        and any(isinstance(n, ast.Return) and norm(n.value) == "self.request" for n in ast.walk(rb.node))
-    rep.check(okr, "C03.R4", "request-bytes", rb.loc() if rb else tcp.module.relpath, "request_bytes stamps a fresh transaction id over bytes [0:2] and returns the frame",
-              bad="ModbusTcpProtocolCommand.request_bytes no longer returns _next_tx() + self.request[2:]")
+    tcp_proto = [ci for ci in proto_classes(ctx) if any(isinstance(b, str) and b == "asyncio.Protocol" for b in prog.mro(ci))]
+    if not tcp_proto:
+        raise AnalysisError("no stream protocol class found")
+    sr = method(ctx, tcp_proto[0], "_send_request")
+    reach = res.reachable([sr])
+    sites = [(f, n) for f in res.all_funcs() for n in res._own_nodes(f) if isinstance(n, ast.Call) and norm(n.func) == "_next_tx"]
+    if not sites:
+        rep.violation("C03.R4", "stamp-sites", fn.loc(), "_next_tx() is never called: Modbus/TCP frames keep the placeholder transaction id")
+    for f, n in sites:
+        spliced = any(isinstance(x, ast.BinOp) and isinstance(x.op, ast.Add) and x.left is n and isinstance(x.right, ast.Subscript) and isinstance(x.right.slice, ast.Slice)
+                      and norm(x.right.slice.lower) == "2" and x.right.slice.upper is None for x in ast.walk(f.node))
+        per_send = f in reach
+        rep.check(spliced and per_send, "C03.R4", "stamp:%s" % f.short, f.loc(n), "%s splices a fresh transaction id over bytes [0:2] on the path of every transmission" % f.short,
+                  bad="%s: %s" % (f.short, "the new transaction id is not spliced as _next_tx() + <frame>[2:]" if not spliced else
+                                  "the transaction id is renewed in %s, which %s does not run for each transmission: a retransmission repeats the id of the lost frame" % (f.short, sr.short)))
+    # every path of the stream protocol's _send_request renews the id before it writes
+    stampers = {f.qualname for f, _ in sites}
+    for p in enumerate_paths(prog, sr, no_raise):
+        sends = [i for i, ev in enumerate(p.events) if ev.kind == "call" and "send" in tags(ev)]
+        if not sends:
+            continue
+        renewed = False
+        for ev in p.events[:sends[0]]:
+            if ev.kind != "call":
+                continue
+            if norm(ev.node.func) == "_next_tx":
+                renewed = True
+            ct = res.resolve_call(ev.node, sr)
+            tcp_targets = [c for c in ct.funcs if c.cls is None or not prog.is_subclass(c.cls, prog.cls("ProtocolCommand")) or prog.is_subclass(c.cls, tcp)]
+            if tcp_targets and all(any(g.qualname in stampers for g in res.reachable([c])) for c in tcp_targets):
+                renewed = True
+        rep.check(renewed, "C03.R4", "renew-per-send:%s:%s" % (sr.short, p.describe()), sr.loc(), "%s renews the transaction id before the write" % sr.short,
+                  bad="%s writes a Modbus/TCP frame without renewing its transaction id on this path [path %s]" % (sr.short, p.describe()))
     # exactly one request_bytes() per transport write, before it
     for ci in proto_classes(ctx):
         sr = method(ctx, ci, "_send_request")
@@ -575,14 +605,27 @@ def r4(ctx: Ctx, rep: Report):
             sends = [i for i, ev in enumerate(p.events) if ev.kind == "call" and "send" in tags(ev)]
             okp = len(rbs) == 1 and len(sends) == 1 and rbs[0] < sends[0]
             sent = p.events[sends[0]].node.args[0] if sends and p.events[sends[0]].node.args else None
-            src = None
             if okp and isinstance(sent, ast.Name):
-                for ev in p.events[:sends[0]]:
-                    if ev.kind == "stmt" and isinstance(ev.node, ast.Assign) and norm(ev.node.targets[0]) == sent.id:
-                        src = ev.node.value
-                okp = src is not None and (call_chain(src) or ("",))[-1] == "request_bytes"
+                okp = _derives_from_request_bytes(p, sends[0], sent.id)
+            elif okp:
+                okp = sent is not None and any(isinstance(x, ast.Call) and (call_chain(x) or ("",))[-1] == "request_bytes" for x in ast.walk(sent))
             rep.check(okp, "C03.R4", "stamp-per-send:%s:%s" % (sr.short, p.describe()), sr.loc(), "%s sends the bytes of one request_bytes() call" % sr.short,
                       bad="%s does not send the result of exactly one command.request_bytes() call per transmission (retransmissions must carry a new transaction id) [path %s]" % (sr.short, p.describe()))
+
+
+def _derives_from_request_bytes(p, upto: int, name: str, depth: int = 0) -> bool:
+    """The value of *name* at event *upto* is computed (through the assignments on the path) from a request_bytes() call."""
+    if depth > 6:
+        return False
+    for ev in reversed(p.events[:upto]):
+        if ev.kind == "stmt" and isinstance(ev.node, ast.Assign) and any(isinstance(t, ast.Name) and t.id == name for t in ev.node.targets):
+            v = ev.node.value
+            if any(isinstance(x, ast.Call) and (call_chain(x) or ("",))[-1] == "request_bytes" for x in ast.walk(v)):
+                return True
+            idx = p.events.index(ev)
+            return any(_derives_from_request_bytes(p, idx, x.id, depth + 1) for x in ast.walk(v) if isinstance(x, ast.Name) and x.id != name) or \
+                any(isinstance(x, ast.Name) and x.id == name for x in ast.walk(v)) and _derives_from_request_bytes(p, idx, name, depth + 1)
+    return False
 
 
 def check(ctx: Ctx, rep: Report):
